@@ -16,6 +16,7 @@ import (
 	"strings"
 	"time"
 
+	xcluster "github.com/envoyproxy/go-control-plane/envoy/config/cluster/v3"
 	core "github.com/envoyproxy/go-control-plane/envoy/config/core/v3"
 	ep "github.com/envoyproxy/go-control-plane/envoy/config/endpoint/v3"
 	"google.golang.org/protobuf/types/known/wrapperspb"
@@ -71,6 +72,8 @@ type lcfg struct {
 }
 type op struct {
 	lc              lcfg
+	via             bool // cluster operations: through cluster.MngAdapter (Trigger*) instead of the manager
+	eds             bool // XC / XD: EDS-type cluster
 	kind            string
 	r, c, domain    string
 	vhs             []vhost
@@ -130,8 +133,44 @@ func hostsTok(hs []host) string {
 	}
 	return strings.Join(p, ",")
 }
+func locsTok(locs [][]xhost) string {
+	var ls []string
+	for _, l := range locs {
+		if len(l) == 0 {
+			ls = append(ls, "_")
+			continue
+		}
+		var xs []string
+		for _, x := range l {
+			w := "-"
+			if x.w >= 0 {
+				w = fmt.Sprint(x.w)
+			}
+			xs = append(xs, x.addr+"~"+w)
+		}
+		ls = append(ls, strings.Join(xs, ","))
+	}
+	return strings.Join(ls, ";")
+}
+
 func (o op) tok() string {
+	t := o.tok0()
+	if o.via {
+		return strings.ToLower(t[:2]) + t[2:]
+	}
+	return t
+}
+
+func (o op) tok0() string {
+	et := "S"
+	if o.eds {
+		et = "E"
+	}
 	switch o.kind {
+	case "XC":
+		return fmt.Sprintf("XC/%s/%d/%s/%s", o.c, o.tag, et, locsTok(o.assigns[0].locs))
+	case "XD":
+		return "XD/" + o.c + "/" + et
 	case "RN":
 		return "RN"
 	case "RU":
@@ -170,23 +209,7 @@ func (o op) tok() string {
 	case "XE":
 		var p []string
 		for _, a := range o.assigns {
-			var ls []string
-			for _, l := range a.locs {
-				if len(l) == 0 {
-					ls = append(ls, "_")
-					continue
-				}
-				var xs []string
-				for _, x := range l {
-					w := "-"
-					if x.w >= 0 {
-						w = fmt.Sprint(x.w)
-					}
-					xs = append(xs, x.addr+"~"+w)
-				}
-				ls = append(ls, strings.Join(xs, ","))
-			}
-			p = append(p, a.c+"/"+strings.Join(ls, ";"))
+			p = append(p, a.c+"/"+locsTok(a.locs))
 		}
 		return "XE/" + strings.Join(p, "/")
 	}
@@ -379,8 +402,58 @@ func errTok(err error) string {
 	return "ok"
 }
 
+func loadAssignment(a assign) *ep.ClusterLoadAssignment {
+	la := &ep.ClusterLoadAssignment{ClusterName: a.c}
+	for i, l := range a.locs {
+		le := &ep.LocalityLbEndpoints{Locality: &core.Locality{Zone: fmt.Sprintf("z%d", i)}, Priority: uint32(i)}
+		for _, x := range l {
+			le.LbEndpoints = append(le.LbEndpoints, lbEndpoint(x))
+		}
+		la.Endpoints = append(la.Endpoints, le)
+	}
+	return la
+}
+
+func xdsCluster(o op) *xcluster.Cluster {
+	xc := &xcluster.Cluster{Name: o.c, LbPolicy: xcluster.Cluster_RANDOM,
+		MaxRequestsPerConnection: wrapperspb.UInt32(o.tag), PerConnectionBufferLimitBytes: wrapperspb.UInt32(16384)}
+	if o.eds {
+		xc.ClusterDiscoveryType = &xcluster.Cluster_Type{Type: xcluster.Cluster_EDS}
+	} else {
+		xc.ClusterDiscoveryType = &xcluster.Cluster_Type{Type: xcluster.Cluster_STATIC}
+	}
+	if len(o.assigns) > 0 && len(o.assigns[0].locs) > 0 {
+		xc.LoadAssignment = loadAssignment(o.assigns[0])
+	}
+	return xc
+}
+
 func (e *env) apply(o op) string {
+	if o.via {
+		ad := cluster.GetClusterMngAdapterInstance()
+		switch o.kind {
+		case "CP":
+			return errTok(ad.TriggerClusterAddOrUpdate(clusterCfg(o.c, o.tag, o.cfgHosts)))
+		case "CH":
+			return errTok(ad.TriggerClusterAndHostsAddOrUpdate(clusterCfg(o.c, o.tag, o.cfgHosts), hostCfgs(o.hosts)))
+		case "HU":
+			return errTok(ad.TriggerClusterHostUpdate(o.c, hostCfgs(o.hosts)))
+		case "HA":
+			return errTok(ad.TriggerHostAppend(o.c, hostCfgs(o.hosts)))
+		case "HR":
+			return errTok(ad.TriggerHostDel(o.c, o.strs))
+		case "CR":
+			return errTok(ad.TriggerClusterDel(o.strs...))
+		}
+		panic("via " + o.kind)
+	}
 	switch o.kind {
+	case "XC": // CDS add/update through the real conversion; reports nothing
+		conv.NewConverter().ConvertUpdateClusters([]*xcluster.Cluster{xdsCluster(o)})
+		return "ok"
+	case "XD": // CDS delete through the real conversion; reports nothing
+		conv.NewConverter().ConvertDeleteClusters([]*xcluster.Cluster{xdsCluster(o)})
+		return "ok"
 	case "RN":
 		return errTok(e.rm.AddOrUpdateRouters(nil))
 	case "RU":
@@ -413,15 +486,7 @@ func (e *env) apply(o op) string {
 	case "XE":
 		var las []*ep.ClusterLoadAssignment
 		for _, a := range o.assigns {
-			la := &ep.ClusterLoadAssignment{ClusterName: a.c}
-			for i, l := range a.locs {
-				le := &ep.LocalityLbEndpoints{Locality: &core.Locality{Zone: fmt.Sprintf("z%d", i)}, Priority: uint32(i)}
-				for _, x := range l {
-					le.LbEndpoints = append(le.LbEndpoints, lbEndpoint(x))
-				}
-				la.Endpoints = append(la.Endpoints, le)
-			}
-			las = append(las, la)
+			las = append(las, loadAssignment(a))
 		}
 		return errTok(conv.NewConverter().ConvertUpdateEndpoints(las))
 	}
@@ -520,7 +585,7 @@ func runHistory(c *hx.Ctx, ops []op) {
 		switch o.kind {
 		case "RU", "RA", "RR":
 			rnames = append(rnames, o.r)
-		case "CP", "CH", "CN", "HU", "HA", "HR":
+		case "CP", "CH", "CN", "HU", "HA", "HR", "XC", "XD":
 			cnames = append(cnames, o.c)
 		case "CR":
 			cnames = append(cnames, o.strs...)
@@ -753,7 +818,7 @@ func (g *gen) op() op {
 		pk = 25
 	}
 	kinds := []string{"RU", "RU", "RA", "RA", "RA", "RR", "CP", "CH", "CH", "HU", "HU", "HA", "HA", "HR", "HR", "CR", "XE", "XE", "RN", "CN",
-		"LA", "LA", "LA", "LA", "LD"}
+		"LA", "LA", "LA", "LA", "LD", "XC", "XD"}
 	if g.bad {
 		kinds = append(kinds, "RN", "CN", "CR", "RA", "RR", "HR", "XE", "HU", "LA", "LD")
 	}
@@ -771,7 +836,26 @@ func (g *gen) op() op {
 			}
 		}
 	}
+	via := r.Chance(40)
 	switch k {
+	case "XC":
+		n := r.PickS(cnamePool)
+		g.clus[n] = true
+		a := assign{c: n}
+		for j := r.Intn(4); j > 0; j-- {
+			var l []xhost
+			for m := r.Intn(3); m > 0; m-- {
+				w := int64(-1)
+				if r.Chance(60) {
+					w = int64(r.Pick(weightPool))
+				}
+				l = append(l, xhost{addr: r.PickS(addrPool), w: w})
+			}
+			a.locs = append(a.locs, l)
+		}
+		return op{kind: k, c: n, tag: uint32(1 + r.Intn(5)), eds: r.Bool(), assigns: []assign{a}}
+	case "XD":
+		return op{kind: k, c: pickKnown(r, g.clus, cnamePool, pk), eds: r.Chance(70)}
 	case "LA":
 		return op{kind: k, lc: g.listener()}
 	case "LD":
@@ -799,7 +883,7 @@ func (g *gen) op() op {
 	case "CP":
 		n := r.PickS(cnamePool)
 		g.clus[n] = true
-		o := op{kind: k, c: n, tag: uint32(1 + r.Intn(5))}
+		o := op{kind: k, via: via, c: n, tag: uint32(1 + r.Intn(5))}
 		if r.Chance(30) {
 			o.cfgHosts = g.hosts(2)
 		}
@@ -807,7 +891,7 @@ func (g *gen) op() op {
 	case "CH":
 		n := r.PickS(cnamePool)
 		g.clus[n] = true
-		o := op{kind: k, c: n, tag: uint32(1 + r.Intn(5)), hosts: g.hosts(4)}
+		o := op{kind: k, via: via, c: n, tag: uint32(1 + r.Intn(5)), hosts: g.hosts(4)}
 		if r.Chance(75) {
 			o.cfgHosts = o.hosts // the debug API / xDS pass cluster.Hosts as the hosts
 		} else {
@@ -817,7 +901,7 @@ func (g *gen) op() op {
 	case "CN":
 		return op{kind: k, c: r.PickS(cnamePool)}
 	case "HU", "HA":
-		return op{kind: k, c: pickKnown(r, g.clus, cnamePool, pk), hosts: g.hosts(4)}
+		return op{kind: k, via: via, c: pickKnown(r, g.clus, cnamePool, pk), hosts: g.hosts(4)}
 	case "HR":
 		n := r.Intn(4)
 		var as []string
@@ -827,7 +911,7 @@ func (g *gen) op() op {
 		if r.Chance(15) {
 			as = append(as, "127.0.0.1:9999")
 		}
-		return op{kind: k, c: pickKnown(r, g.clus, cnamePool, pk), strs: as}
+		return op{kind: k, via: via, c: pickKnown(r, g.clus, cnamePool, pk), strs: as}
 	case "CR":
 		n := 1 + r.Intn(2)
 		if r.Chance(5) {
@@ -840,7 +924,7 @@ func (g *gen) op() op {
 		for _, x := range ns {
 			delete(g.clus, x) // may fail, bookkeeping is only a hint
 		}
-		return op{kind: k, strs: ns}
+		return op{kind: k, via: via, strs: ns}
 	case "XE":
 		na := 1
 		if r.Chance(15) {
